@@ -7,8 +7,9 @@ import Huginn.Model.Akamai
 Model of the HTTP/2 message path of huginn-net-http, as it is:
 
 * `http2_parser.rs`: `Http2Parser::parse_request` / `parse_response`, `find_primary_stream`,
-  `build_stream` (resets the HPACK decoder, then decodes *each* HEADERS/CONTINUATION frame payload of
-  the primary stream separately, raw), `parse_headers_payload`, `extract_settings`,
+  `build_stream` (resets the HPACK decoder, assembles the header blocks of the primary stream —
+  `header_block_fragment` of each HEADERS frame plus the CONTINUATION payloads after it — and decodes
+  each block), `parse_headers_payload`, `extract_settings`,
   `parse_cookies_from_headers`;
 * `http2_process.rs`: `convert_http2_{request,response}_to_observable`,
   `convert_http2_headers_to_http_format`, `build_absent_headers_from_http2`,
@@ -153,12 +154,10 @@ def unknownSw : Bytes := [63, 63, 63]   -- "???"
 
 /-! ### http2_parser.rs -/
 
-/-- `parse_headers_payload` after a successful decode: lossy names and values, empty value ↦ `None`,
-`position` = index in *this frame's* list -/
+/-- `parse_headers_payload` after a successful decode: lossy names and values, `position` = index
+in the decoded block -/
 def toHdrs (fields : List Field) : List Hdr :=
-  (fields.zipIdx).map fun (f, i) =>
-    let v := lossy f.2
-    { name := lossy f.1, value := if v.isEmpty then none else some v, position := i }
+  (fields.zipIdx).map fun (f, i) => { name := lossy f.1, value := some (lossy f.2), position := i }
 
 /-- accumulator of `build_stream` -/
 structure StreamAcc where
@@ -178,20 +177,39 @@ def StreamAcc.add (a : StreamAcc) (h : Hdr) : StreamAcc :=
   else if h.name = nStatus then { a with status := h.value.bind parseU16 }
   else { a with headers := a.headers ++ [h] }
 
-/-- the loop of `build_stream` over the frames of the primary stream; the decoder state is
-threaded from frame to frame. `none` = `HpackDecodingFailed`. -/
-def buildLoop (H : Hpack) : H.σ → List Frame → StreamAcc → Option StreamAcc
+/-- first loop of `build_stream` over the frames of the primary stream: `pending` block, finished
+`blocks`. `none` = a HEADERS frame without a fragment (`HpackDecodingFailed`). -/
+def assembleLoop : List Frame → Option Bytes → List Bytes → Option (List Bytes)
+  | [], pending, acc => some (acc ++ pending.toList)
+  | f :: r, pending, acc =>
+    if f.ty == tyHeaders then
+      match fragmentOf f with
+      | none => none
+      | some frag =>
+        if f.flags &&& 4 != 0 then assembleLoop r none (acc ++ pending.toList ++ [frag])
+        else assembleLoop r (some frag) (acc ++ pending.toList)
+    else if f.ty == tyContinuation then
+      match pending with
+      | some b =>
+        if f.flags &&& 4 != 0 then assembleLoop r none (acc ++ [b ++ f.payload])
+        else assembleLoop r (some (b ++ f.payload)) acc
+      | none => assembleLoop r none acc
+    else assembleLoop r pending acc
+
+/-- second loop: every block is decoded in turn, the decoder state is threaded from block to block.
+`none` = `HpackDecodingFailed`. -/
+def decodeBlocks (H : Hpack) : H.σ → List Bytes → StreamAcc → Option StreamAcc
   | _, [], a => some a
-  | st, f :: r, a =>
-    if f.ty == tyHeaders || f.ty == tyContinuation then
-      match H.dec st f.payload with
-      | (none, _) => none
-      | (some fields, st') => buildLoop H st' r ((toHdrs fields).foldl StreamAcc.add a)
-    else buildLoop H st r a
+  | st, b :: r, a =>
+    match H.dec st b with
+    | (none, _) => none
+    | (some fields, st') => decodeBlocks H st' r ((toHdrs fields).foldl StreamAcc.add a)
 
 /-- `build_stream` (starts from a fresh decoder) -/
 def buildStream (H : Hpack) (sid : Nat) (frames : List Frame) : Option StreamAcc :=
-  buildLoop H H.init (frames.filter (fun f => f.sid == sid)) {}
+  match assembleLoop (frames.filter (fun f => f.sid == sid)) none [] with
+  | none => none
+  | some blocks => decodeBlocks H H.init blocks {}
 
 /-- `find_primary_stream` -/
 def findPrimary (frames : List Frame) : Option Nat :=
@@ -283,13 +301,14 @@ def parseResponse (H : Hpack) (data : Bytes) : Except ParseErr (Option Response)
 
 /-! ### http2_process.rs -/
 
-/-- `convert_http2_headers_to_http_format`: the lower-cased name is looked up in the lists as they
-are written (Title-Case) -/
+/-- `list.iter().any(|l| l.eq_ignore_ascii_case(name))` -/
+def listedIn (list : List Bytes) (name : Bytes) : Bool := list.any (fun l => lowerAscii l == lowerAscii name)
+
+/-- `convert_http2_headers_to_http_format` -/
 def toSigHeaders (optionalList skipList : List Bytes) (hs : List Hdr) : List SigHdr :=
   hs.map fun h =>
-    let l := lowerAscii h.name
-    if optionalList.contains l then { optional := true, name := h.name, value := none }
-    else if skipList.contains l then { optional := false, name := h.name, value := none }
+    if listedIn optionalList h.name then { optional := true, name := h.name, value := none }
+    else if listedIn skipList h.name then { optional := false, name := h.name, value := none }
     else { optional := false, name := h.name, value := h.value }
 
 /-- `build_absent_headers_from_http2` -/
